@@ -850,7 +850,7 @@ func burstRound(backend string, s kvs.Storage, seed int64) *frFinding {
 // longPark (Redis): a waiter is parked for a long time before its key changes. The polling backend must
 // still notice the change promptly - its poll interval may not grow with the time spent waiting. Bound 1 s
 // (healthy: < 0.1 s), guarded by a stall canary.
-func longPark(park time.Duration) (sig, what string, stall time.Duration, inconclusive string) {
+func longPark(park time.Duration, slowPoll bool) (sig, what string, stall time.Duration, inconclusive string) {
 	rs, err := kvmodel.NewRedisServer()
 	if err != nil {
 		return "", "", 0, "miniredis: " + err.Error()
@@ -882,7 +882,7 @@ func longPark(park time.Duration) (sig, what string, stall time.Duration, inconc
 	// changed, so the waiter must simply keep waiting
 	var gets atomic.Int64
 	rs.MR.Server().SetPreHook(func(_ *server.Peer, cmd string, _ ...string) bool {
-		if cmd == "GET" && gets.Add(1) == 4 {
+		if cmd == "GET" && gets.Add(1) == 4 && slowPoll {
 			time.Sleep(600 * time.Millisecond)
 		}
 		return false
@@ -1183,16 +1183,18 @@ func TestCheck(t *testing.T) {
 	}
 
 	var lpwg sync.WaitGroup
-	parks := []time.Duration{3200 * time.Millisecond}
+	// two phases in every tier (with and without the slow poll): where the next poll of a growing interval falls
+	// relative to the change depends on both
+	parks := []time.Duration{3200 * time.Millisecond, 4000 * time.Millisecond}
 	if run.Thorough() {
-		parks = append(parks, 6500*time.Millisecond, 1500*time.Millisecond)
+		parks = append(parks, 6500*time.Millisecond, 1500*time.Millisecond, 2200*time.Millisecond, 5000*time.Millisecond)
 	}
-	for _, park := range parks {
+	for pi, park := range parks {
 		lpwg.Add(1)
-		go func(park time.Duration) {
+		go func(pi int, park time.Duration) {
 			defer lpwg.Done()
 			for attempt := 1; ; attempt++ {
-				sig, what, stall, inc := longPark(park)
+				sig, what, stall, inc := longPark(park, pi%2 == 1)
 				if inc != "" {
 					run.Inconclusive(inc)
 					return
@@ -1207,11 +1209,11 @@ func TestCheck(t *testing.T) {
 				run.Eval(1)
 				run.Add("redis_long_park_scenarios", 1)
 				if sig != "" {
-					run.Violation(sig, what, map[string]any{"scenario": "long-park", "backend": "redis", "park": park.String()})
+					run.Violation(sig, what, map[string]any{"scenario": "long-park", "backend": "redis", "park": park.String(), "slow_poll": pi%2 == 1})
 				}
 				return
 			}
-		}(park)
+		}(pi, park)
 	}
 	defer lpwg.Wait()
 	for i, at := range []time.Time{time.Date(9999, 12, 31, 23, 59, 59, 0, time.UTC), time.Now().AddDate(300, 0, 0), time.Date(2300, 1, 1, 0, 0, 0, 0, time.UTC), time.Now().AddDate(100, 0, 0)} {
